@@ -542,6 +542,103 @@ def lua_data_caches(rep: C.Report) -> None:
         ob.detail += f"{type(e).__name__}: {e}"
 
 
+def begline_invariant(rep: C.Report) -> None:
+    """Ob9: the havoc harness assumes a representation invariant at API boundaries - line-start syntax enabled, disable counter
+    zero.  Nothing resets the two fields per page, so the invariant rests on the object used as `with ctx.begline_disabled...:`
+    in the parser restoring them on EVERY exit of the with-body, exceptional ones included (a parse may raise: RecursionError on
+    very deep nesting; the caller catches it and goes on with the next page).
+    E3: for a manager class, every path of __enter__ raises the counter by exactly one and every path of __exit__ lowers it
+    by exactly one whatever the exception arguments (z3 over the paths of both methods); for a generator-based manager the
+    `yield` must sit in a try whose finally-block does the lowering.  If the fact fails a raising parse is replayed: the
+    pages processed afterwards on the same context must parse as on a fresh one."""
+    ob = rep.add(C.Ob("Ob9 the line-start switch set while arguments are re-parsed is restored on every exit of the with-block, exceptions included (representation invariant of the havoc harness)", "E3 AST path encoder + z3; else replay of a raising parse", ["core.py: object behind Wtp.begline_disabled", "parser.py:magic_fn (with-blocks)"], "all syntactic paths of __enter__/__exit__ (or the generator), unbounded input"))
+    try:
+        tree = ast.parse(open(os.path.join(C.SRC, "core.py")).read())
+        ptree = ast.parse(open(os.path.join(C.SRC, "parser.py")).read())
+        uses = [it.context_expr for w in ast.walk(ptree) if isinstance(w, ast.With) for it in w.items if "begline_disabled" in ast.unparse(it.context_expr)]
+        ob.samples.append({"with_sites": len(uses), "written_as": sorted({ast.unparse(u) for u in uses})})
+
+        def cnt_delta(n):
+            if isinstance(n, ast.AugAssign) and isinstance(n.target, ast.Attribute) and n.target.attr == "begline_disable_counter" and isinstance(n.value, ast.Constant) and n.value.value == 1:
+                return {"cnt": 1 if isinstance(n.op, ast.Add) else -1 if isinstance(n.op, ast.Sub) else 0}
+            return None
+
+        problems = []
+        classes = [c for c in ast.walk(tree) if isinstance(c, ast.ClassDef) and {"__enter__", "__exit__"} <= {f.name for f in c.body if isinstance(f, ast.FunctionDef)} and "begline_disable_counter" in ast.unparse(c)]
+        gens = [f for f in ast.walk(tree) if isinstance(f, ast.FunctionDef) and f.name == "begline_disabled" and any(isinstance(y, (ast.Yield, ast.YieldFrom)) for y in ast.walk(f))]
+        if classes:
+            for c in classes:
+                for f in c.body:
+                    if isinstance(f, ast.FunctionDef) and f.name in ("__enter__", "__exit__"):
+                        want = 1 if f.name == "__enter__" else -1
+                        enc = AP.Encoder(f, ["cnt"], cnt_delta).run()
+                        for ex in enc.exits:
+                            if ex.kind not in ("return", "fallthrough"):
+                                continue
+                            sol = z3.Solver()
+                            sol.add(ex.guard, ex.counters["cnt"] != want)
+                            r = str(sol.check())
+                            ob.queries += 1
+                            ob.paths += 1
+                            ob.conditions += 1
+                            if r == "unsat":
+                                ob.confirmed_conditions += 1
+                            else:
+                                problems.append(f"{c.name}.{f.name}: a path changes the counter by something else than {want:+d} (core.py:{ex.line})")
+                ob.functions.append(f"core.py:{c.name}.__enter__/__exit__")
+        elif gens:
+            for g in gens:
+                ob.conditions += 1
+                ob.queries += 1
+                ob.paths += 1
+                ok = False
+                for t in ast.walk(g):
+                    if isinstance(t, ast.Try) and t.finalbody and any(isinstance(y, (ast.Yield, ast.YieldFrom)) for b in t.body for y in ast.walk(b)):
+                        fin = ast.Module(body=t.finalbody, type_ignores=[])
+                        if any((cnt_delta(n) or {}).get("cnt") == -1 for n in ast.walk(fin)):
+                            ok = True
+                if ok:
+                    ob.confirmed_conditions += 1
+                else:
+                    problems.append(f"generator-based manager {g.name} (core.py:{g.lineno}) lowers the counter after a bare yield: skipped when the with-body raises")
+                ob.functions.append(f"core.py:Wtp.{g.name} (generator)")
+        else:
+            problems.append("no manager object found for begline_disabled")
+        if not uses:
+            problems.append("no `with ctx.begline_disabled` site found in parser.py")
+        if not problems and not C.distrust():
+            ob.verdict = C.DISCHARGED
+            return
+        ob.samples.append({"problems": problems})
+        # replay: a parse that raises while arguments are being re-parsed, then the catalogue pages on the same context
+        gen0, _ = xh.prepare(H)
+        mod = xh.load(gen0)
+        import sys
+
+        for opener, closer in (("{{a|", "}}"), ("[[a|", "]]"), ("{{{a|", "}}}")):
+            c = mod.make_ctx()
+            c.start_page("Deep")
+            raised = None
+            try:
+                c.parse(opener * 1500 + "x" + closer * 1500)
+            except Exception as e:  # noqa: BLE001
+                raised = type(e).__name__
+            if raised is None:
+                continue
+            for idx, doc in enumerate(mod.PARSE_DOCS):
+                try:
+                    got = mod.run_parse(c, doc)
+                except Exception as e:  # noqa: BLE001
+                    got = ("EXC", repr(e))
+                if got != mod.EXP_PARSE[idx]:
+                    v = rep.violation(f"one context: parse({opener!r} * 1500 + 'x' + {closer!r} * 1500) raises {raised} (caught by the caller); start_page('T'); parse({doc!r})", f"the later page parses differently from a fresh context (begline_enabled={getattr(c, 'begline_enabled', None)}, begline_disable_counter={getattr(c, 'begline_disable_counter', None)} left behind): {str(got[0])[:160]!r} instead of {str(mod.EXP_PARSE[idx][0])[:160]!r}", {"doc": doc})
+                    ob.verdict = C.VIOLATED if v.known is None else C.KNOWN
+                    return
+        ob.detail = f"{problems} but pages parsed after a raising parse equal the fresh-context result -> inconclusive"
+    except Exception as e:  # noqa: BLE001
+        ob.detail += f"{type(e).__name__}: {e}"
+
+
 def run(rep: C.Report) -> None:
     quick = C.tier() == "quick"
     rep.explanation = (
@@ -553,7 +650,7 @@ def run(rep: C.Report) -> None:
         "E3: no attribute of the context aliases a module-level table that is mutated in place."
     )
     rep.assumptions += [
-        "representation invariant at API boundaries: begline_enabled is True and begline_disable_counter == 0 (BegLineDisableManager restores them)",
+        "representation invariant at API boundaries: begline_enabled is True and begline_disable_counter == 0 (discharged by Ob9)",
         "container shapes are fixed (two cookies, one message per list, three path entries), their contents are symbolic",
         "symbolic strings are not used as dict keys (rev_ht / strip_marker_cache get concrete keys and symbolic values)",
     ]
@@ -578,6 +675,7 @@ def run(rep: C.Report) -> None:
     captured_not_rebound(rep)
     class_level_state(rep)
     cached_chunks_rebound(rep)
+    begline_invariant(rep)
 
 
 def replay(r: dict) -> int:
